@@ -304,6 +304,19 @@ def run_case(case, ctx):
                 b.set_ctrlpts(P, *sizes)
                 _judge(ctx, comp, a, b, False, dict(case, only=dict(component=comp, index=i, coord=c, delta=delta)),
                        dict(f0, component=comp, index=i, coord=c, delta=delta))
+    # ---- one coordinate of every control point, read - modify - write back through the ctrlpts view
+    for i in range(len(P0)):
+        delta = DELTAS[0]
+        if not sel(component='ctrlpts_view_rmw', index=i, delta=delta):
+            continue
+        b = copy.deepcopy(a)
+        p = b.ctrlpts
+        p = p if isinstance(p, list) else [list(x) for x in p]
+        p[i] = list(p[i])
+        p[i][0] += delta
+        b.ctrlpts = p
+        _judge(ctx, 'ctrlpts_view_rmw', a, b, False, dict(case, only=dict(component='ctrlpts_view_rmw', index=i, delta=delta)),
+               dict(f0, component='ctrlpts_view_rmw', index=i, delta=delta))
     # ---- every weight through the weights setter (Cartesian point kept)
     if rat:
         w0 = list(a.weights)
@@ -317,6 +330,18 @@ def run_case(case, ctx):
                 b.weights = w
                 _judge(ctx, 'weight_setter', a, b, False, dict(case, only=dict(component='weight_setter', index=i, delta=delta)),
                        dict(f0, component='weight_setter', index=i, delta=delta))
+        # read - modify - write back through the same documented views: the list the getter returned is edited and assigned
+        for i in range(len(w0)):
+            delta = DELTAS[0]
+            if not sel(component='weight_setter_rmw', index=i, delta=delta):
+                continue
+            b = copy.deepcopy(a)
+            w = b.weights
+            w = w if isinstance(w, list) else list(w)
+            w[i] += delta
+            b.weights = w
+            _judge(ctx, 'weight_setter_rmw', a, b, False, dict(case, only=dict(component='weight_setter_rmw', index=i, delta=delta)),
+                   dict(f0, component='weight_setter_rmw', index=i, delta=delta))
     # ---- every knot that can move by delta and stay sorted (stored values compared, so only moves the setter keeps)
     kvs0 = _get_kvs(a)
     for d, kv0 in enumerate(kvs0):
